@@ -298,3 +298,29 @@ def enclosing_try_handlers(fnode, pred):
             walk(ch, st2)
     walk(fnode, [])
     return out
+
+
+class Leaf:
+    """One constant-or-term leaf of a (possibly merged) return value, with the facts that hold on the way to it."""
+
+    def __init__(self, value, facts, guard, exit_):
+        self.value, self.facts, self.guard, self.exit = value, facts, guard, exit_
+        self.kind, self.exc, self.node = "return", None, exit_.node
+
+
+def leaf_returns(summary, depth=8):
+    """Return exits with gated values split into their leaves: `r = "OK" if c else msg; return r` counts like two returns.
+    The path conditions of a leaf are added to its facts."""
+    out = []
+
+    def walk(v, facts, ex, d):
+        if isinstance(v, T) and v.op == "boolop":
+            v = unfz(v.args[2])
+        if isinstance(v, T) and v.op == "ite" and d < depth:
+            walk(unfz(v.args[1]), facts + [v.args[0]], ex, d + 1)
+            walk(unfz(v.args[2]), facts + [tm.lnot(v.args[0])], ex, d + 1)
+        else:
+            out.append(Leaf(v, facts, list(ex.guard), ex))
+    for ex in summary.returns():
+        walk(ex.value, list(all_facts(ex)), ex, 0)
+    return out
